@@ -59,6 +59,27 @@ if os.environ.get('MUT_EXTRA2') == '1':
     ]
 
 
+if os.environ.get('MUT_EXTRA3') == '1':   # mut2's pass-2 classes that are not in EXTRA / EXTRA2
+    RULES += [
+        # first two of three or more call arguments swapped
+        (r'(?<=\w\()([^(),;:{}]+), ([^(),;:{}]+)(?=,)', [lambda m: m.group(2) + ', ' + m.group(1)]),
+        (r'LineSide::Left\b', ['LineSide::Right']), (r'LineSide::Right\b', ['LineSide::Left']),
+        (r'StrokeOffset::Left\b', ['StrokeOffset::Right']), (r'StrokeOffset::Right\b', ['StrokeOffset::Left']), (r'StrokeOffset::None\b', ['StrokeOffset::Left']),
+        (r'StrokeAlignment::Inside\b', ['StrokeAlignment::Center']), (r'StrokeAlignment::Center\b', ['StrokeAlignment::Outside']), (r'StrokeAlignment::Outside\b', ['StrokeAlignment::Inside']),
+        (r'\.start\b(?!\()', ['.end']), (r'\.end\b(?!\()', ['.start']),
+        (r'\bfirst\b', ['second']), (r'\bsecond\b', ['first']), (r'\.left\b', ['.right']), (r'\.right\b', ['.left']),
+        (r'\bJoinKind::(?!Bevel)(\w+)\b', ['JoinKind::Bevel']),
+        (r'PointType::Stroke\b', ['PointType::Fill']), (r'PointType::Fill\b', ['PointType::Stroke']),
+        (r'BevelKind::Interior\b', ['BevelKind::Exterior']), (r'BevelKind::Exterior\b', ['BevelKind::Interior']),
+        (r'Operation::Union\b', ['Operation::Intersection']), (r'Operation::Intersection\b', ['Operation::Union']),
+        (r'\bstroke_color\b', ['fill_color']), (r'\bfill_color\b', ['stroke_color']),
+        (r'\bstroke_area\b', ['fill_area']), (r'\bfill_area\b', ['stroke_area']),
+        (r'\binside_stroke_width\b', ['outside_stroke_width']), (r'\boutside_stroke_width\b', ['inside_stroke_width']),
+        (r'\bouter_threshold\b', ['inner_threshold']), (r'\binner_threshold\b', ['outer_threshold']),
+        (r'\bangle_start\b', ['angle_sweep']), (r'\bangle_sweep\b', ['angle_start']),
+    ]
+
+
 def code_spans(src):
     """yield (start, end) of non-comment, non-string, non-test code"""
     k = src.find('#[cfg(test)]')
